@@ -73,8 +73,10 @@ def run(ctx):
     # ---- R1a: the intended design satisfies every C46 invariant (exhaustive)
     allinv = INV_ALWAYS + " " + " ".join(sorted(CATS))
     r1dirs = '"intra", "in"' if quick else ALLDIRS      # for the model only the notification kind matters: both / source+destination
-    ctx.tlc(sd, "MC_HistoryRepo", cfg("r1a.cfg", dirs=r1dirs, entries=1 if quick else 2, rest="VIEW cvars\nINVARIANTS " + allinv),
-            timeout=900, coverage=not quick)
+    ra = ctx.tlc(sd, "MC_HistoryRepo", cfg("r1a.cfg", dirs=r1dirs, entries=1 if quick else 2, rest="VIEW cvars\nINVARIANTS " + allinv),
+                 timeout=900, coverage=not quick)
+    if not quick and ra.coverage_zero:
+        ctx.broken.append("vacuity guard: actions never taken in R1a: %s" % ra.coverage_zero)
     lap("R1a")
     if not quick:
         ctx.tlc(sd, "MC_HistoryRepo", cfg("r1a2.cfg", mbs='"a", "b"', dirs='"in", "intra"', headers="1, 2, 3", metas="1",
@@ -119,18 +121,35 @@ def run(ctx):
             drift_lookups=int(r.stats.get("drift_lookups", 0)),
             behaviours_ending_with_competing_block=int(r.stats.get("ends_with_competing_block", 0)),
             behaviours_ending_with_early_notification=int(r.stats.get("ends_with_early_notification", 0)))
+    if int(r.stats.get("ends_with_competing_block", 0)) == 0 or int(r.stats.get("ends_with_early_notification", 0)) == 0:
+        ctx.broken.append("vacuity guard: the transition cover contains no competing block / no early notification")
     # a counterexample of the model of the present code must reproduce on the code (else the model is wrong)
     for inv in model_cex.get(",".join(present), []):
         if not any(CATS[inv] in s for s in seen_sigs):
             ctx.broken.append("TLC violates %s in the model of the present code but no replayed behaviour reproduces it" % inv)
 
+    # ---- R2a': transition cover with TWO miniblocks of one direction (two notifications pending at once, blocks holding
+    #            both miniblocks): what a per-key loop can get wrong
+    beh3 = ctx.path("edges2.ndjson")
+    g3 = ctx.tlc(sd, "MC_HistoryRepo", cfg("gen2.cfg", spec="GenSpec", log="LogAppend", defects=q(present), mbs='"a", "b"',
+                                           dirs='"in"', headers="1, 2", metas="1", epochs="1" if quick else "1, 2",
+                                           entries=1 if quick else 2, depth=6 if quick else 5,
+                                           rest="VIEW cvars\nACTION_CONSTRAINT EmitEdge"),
+                 timeout=1500, behaviours_out=beh3, count=False)
+    if g3.ok and g3.behaviours == 0:
+        ctx.broken.append("behaviour export (two miniblocks) produced nothing")
+    r3 = ctx.vh(exe, ["replay", beh3], timeout=1500, count_samples=False)
+    ctx.cov(traces_validated_against_impl=int(r3.stats.get("behaviours", 0)), evaluations=int(r3.stats.get("lookups", 0)),
+            distinct_nontrivial=int(r3.stats.get("distinct", 0)), drift_lookups=int(r3.stats.get("drift_lookups", 0)))
+    lap("R2a' two miniblocks")
+
     # ---- R2b: long simulated behaviours, larger universe
     beh2 = ctx.path("sim.ndjson")
-    depth = 12 if quick else 18
+    depth = 12 if quick else 16
     ctx.tlc(sd, "MC_HistoryRepo", cfg("sim.cfg", spec="SimSpec", log="LogAppend", depth=depth, defects=q(present),
                                       mbs='"a", "b", "c"', headers="1, 2, 3, 4, 5", epochs="1, 2, 3", metas="1, 2, 3", entries=1 if quick else 2,
                                       rest="ACTION_CONSTRAINT EmitFull"),
-            simulate=60 if quick else 2000, depth=depth, timeout=1500, behaviours_out=beh2, count=False)
+            simulate=60 if quick else 500, depth=depth, timeout=1500, behaviours_out=beh2, count=False)
     lap("R2b generate")
     r2 = ctx.vh(exe, ["replay", beh2], timeout=1500, count_samples=False)
     lap("R2b replay")
@@ -172,4 +191,5 @@ def run(ctx):
                  "blocks in the same and in a later epoch) replayed on the real repository; after every step both transactions of the "
                  "miniblock are looked up (header, epoch, round, nonce, notarization at source/destination, GetEpochByHash) and "
                  "compared with the requirement computed by TLA+; distinct = distinct (configuration, source state, action, "
-                 "arguments); R2b: simulated behaviours with 3 miniblocks / 5 blocks / 3 epochs / 3 meta blocks")
+                 "arguments); R2a': the same with 2 miniblocks of one direction / 2 blocks (pending notifications of two miniblocks, "
+                 "blocks holding both); R2b: simulated behaviours with 3 miniblocks / 5 blocks / 3 epochs / 3 meta blocks")
